@@ -59,6 +59,38 @@ transfer that is being processed ignores the request -/
 def refusal (d : Dl) : String :=
   if d.st = .complete then "refused-complete" else if d.st = .paused then "refused-cancelled" else "ignored"
 
+/-! control plane: `ctl <d> <rq 0|1> <u> <toU: letters q=ptq o=replyOk n=replyNo | -> <toD: r=ptr f=puf | ->`
+→ `inv=<0|1> quiescent=<0|1> round=<d>/<u>` — the invariant of `C04_pair_no_requeue_lost` evaluated on a state of
+the real pair, and where one fault-free round leads from it -/
+def parseD : String → Option Ctl.D
+  | "queued" => some .queued | "initializing" => some .initializing | "downloading" => some .downloading
+  | "incomplete" => some .incomplete | "complete" => some .complete | "user" => some .user | _ => none
+def parseU : String → Option Ctl.U
+  | "none" => some .none | "queued" => some .queued | "initializing" => some .initializing
+  | "connecting" => some .connecting | "uploading" => some .uploading | "eofWait" => some .eofWait
+  | "failed" => some .failed | "refused" => some .refused | "complete" => some .complete | _ => none
+def parseToU (s : String) : Option (List Ctl.ToU) :=
+  if s = "-" then some [] else s.toList.mapM fun c =>
+    if c = 'q' then some Ctl.ToU.ptq else if c = 'o' then some .replyOk else if c = 'n' then some .replyNo else none
+def parseToD (s : String) : Option (List Ctl.ToD) :=
+  if s = "-" then some [] else s.toList.mapM fun c =>
+    if c = 'r' then some Ctl.ToD.ptr else if c = 'f' then some .puf else none
+def ctlDName : Ctl.D → String
+  | .queued => "queued" | .initializing => "initializing" | .downloading => "downloading"
+  | .incomplete => "incomplete" | .complete => "complete" | .user => "user"
+def ctlUName : Ctl.U → String
+  | .none => "none" | .queued => "queued" | .initializing => "initializing" | .connecting => "connecting"
+  | .uploading => "uploading" | .eofWait => "eofWait" | .failed => "failed" | .refused => "refused"
+  | .complete => "complete"
+
+def ctlLine (d rq u tu td : String) : String :=
+  match parseD d, rq.toNat?, parseU u, parseToU tu, parseToD td with
+  | some d, some rq, some u, some tu, some td =>
+    let s : Ctl.S := { d := d, rq := rq != 0, u := u, toU := tu, toD := td }
+    let r := Ctl.run s Ctl.round
+    s!"inv={b01 (Ctl.invB s)} quiescent={b01 (Ctl.quiescent s)} round={ctlDName r.d}/{ctlUName r.u}"
+  | _, _, _, _, _ => "bad-op"
+
 def handle (s : DSt) (line : String) : DSt × String :=
   match (line.splitOn " ").filter (· ≠ "") with
   | ["dl", pre] =>
@@ -101,6 +133,7 @@ def handle (s : DSt) (line : String) : DSt × String :=
     | some k => dop s (.crash k) false
     | none => (s, "bad-op")
   | ["hash"] => (s, s!"h={fnv s.d.loc} len={s.d.loc.length}")
+  | ["ctl", d, rq, u, tu, td] => (s, ctlLine d rq u tu td)
   | ["ul", f] =>
     match parseBytes f with
     | some f => let u := Ul.init f; ({ s with u := u, F := f }, usnap u)
